@@ -8,8 +8,7 @@ from llsym.engine import Unsupported
 entry = sys.argv[1]
 fset = sys.argv[2] if len(sys.argv) > 2 else 'fa'
 prof = sys.argv[3] if len(sys.argv) > 3 else 'dev'
-files = check.build_ir(fset, prof)
-mod, key = lrun.load_modules(files, os.path.join(check.BUILD, 'parse'))
+mod, _h = check.load_ir(fset, prof, bool(os.environ.get('LTO')))
 jobs = int(os.environ.get('VERIF_JOBS', '16'))
 try:
     d = lrun.explore_entry(mod, entry, jobs=jobs, verbose=bool(os.environ.get('V')), max_violations=int(os.environ.get('MAXV', '3')),
